@@ -32,6 +32,14 @@ macro_rules! endian_fn {
                 copy.as_mut_slice().copy_from_slice(&wire[..]);
                 ensure!(copy.to_native() == v, "{}: the wire bytes {:x?} placed into a wrapper read as {:#x}", $wname, wire, copy.to_native());
             }
+            {
+                // an explicit clone is the same value with the same bytes
+                #[allow(clippy::clone_on_copy)]
+                let c = Clone::clone(&w);
+                ensure!(c.to_native() == v && c.as_slice() == &wire[..] && c == w, "{}: a clone of W::from({:#x}) holds {:#x} / bytes {:x?}", $wname, v, c.to_native(), c.as_slice());
+                let copied = [w; 2].iter().cloned().collect::<Vec<_>>();
+                ensure!(copied[1].to_native() == v, "{}: iter().cloned() of W::from({:#x}) gives {:#x}", $wname, v, copied[1].to_native());
+            }
             ensure!(w == v, "{}: W::from({:#x}) == {:#x} is false", $wname, v, v);
             ensure!(v == w, "{}: {:#x} == W::from({:#x}) is false", $wname, v, v);
             ensure!(w == <$W>::from(v), "{}: W == W reflexive", $wname);
